@@ -66,6 +66,9 @@ try:
         res["checks"][c] = {"exit": rc, "lines": [l[:200] for l in lines], "replay": rep, "s": round(time.time() - t0)}
 finally:
     run(["git", "-C", wt, "apply", "-R", diff])
+    # the patched harness copy + its build output for this scratch repo (≈0.5–3 GB): remove at once
+    import hashlib, shutil
+    shutil.rmtree(os.path.join("/verif/harness-alt", hashlib.sha1(wt.encode()).hexdigest()[:10]), ignore_errors=True)
     if confirm and res.get("demo_dir") and os.path.isdir(res["demo_dir"]):
         demo = res["demo_dir"]
         rel = " --release" if res.get("demo_with_change", {}).get("mode") == "release" else ""
